@@ -351,7 +351,9 @@ class Source(object):
         self.filename = filename or '<string>'
         if position:
             ln, col = position
-            lines = source.splitlines() or ['']
+            # lines as the parser counts them: form feeds and the Unicode line
+            # separators str.splitlines() knows are ordinary characters to it
+            lines = source.split('\n')
             if ln > len(lines):
                 lines.append('')
             line = lines[ln-1]
@@ -373,7 +375,7 @@ class Source(object):
     @cached_property
     def lines(self):
         # type: () -> list[str]
-        return self.source.splitlines() or ['']
+        return self.source.split('\n')
 
 
 def dump_flows(scope, fd=None):
